@@ -553,6 +553,16 @@ def simplify_try(e):
         outs = [y[3][0][1] for y in xal if not residual(y) and y[2] in ("Ok", "Some") and y[3]]
         if outs:
             return mkphi(tuple(outs))
+    # residuals and built Err/None leave through the `?`: they never reach the value
+    rest = [y for y in xal if not residual(y) and not (y[0] == "agg" and y[2] in ("Err", "None"))]
+    if rest and len(rest) < len(xal):
+        outs = []
+        for y in rest:
+            if y[0] == "agg" and y[2] in ("Ok", "Some") and y[3]:
+                outs.append(y[3][0][1])
+            else:
+                outs.append(("try", y))
+        return mkphi(tuple(outs))
     return e
 
 
